@@ -616,7 +616,7 @@ func (g *c14Gen) run(b *c14Builder, desc string) []byte {
 	switch b.spec.Op {
 	case "csr", "sj", "chain":
 		g.n++
-		if g.n%g.c.Scale(4, 2) == 0 {
+		if g.n%g.c.Scale(4, 3) == 0 {
 			b.spec.E2E = true
 			g.c.Count("e2e:" + b.spec.Op)
 			g.c.Run("C14.run", b.args(), "C14."+b.spec.Op+"_e2e", "", "e2e "+desc)
